@@ -78,7 +78,7 @@ def gen_cases(tier, seed):
             steps.append({"mode": r.choice(["none", "auto", "numbered", "numbered"]),
                           "files": {nm: {"size": r.choice([0, 1, 100, 70000]), "seed": r.randrange(1, 1 << 30)} for nm in names if r.random() < 0.85 or nm == names[0]}})
         yield {"kind": "history", "driver": driver, "names": names, "ncls": ncls, "dircopy": dircopy, "bset": bset, "pre": pre, "steps": steps, "fs": "ext4",
-               "workers": r.choice([1, 2, 4])}
+               "workers": r.choice([0, 1, 2, 4])}
     # kill-point enumeration of one overwrite step per (driver, mode)
     for driver in ("parfile", "parblock"):
         for mode in ("numbered", "auto"):
